@@ -10,9 +10,9 @@
 //!
 //! The calls are applied to the real builder starting from `emit::setup()`.  Every call
 //! changes the builder's type, so the sequence is driven by a generic recursion whose depth
-//! is bounded by a type-level counter (`Fuel`); the emitter is re-boxed after `and_emit_to`
-//! and the context after `map_ctxt` (through the builder's own `map_emitter` / `map_ctxt`),
-//! the filter's type grows with every `and_emit_when` exactly as in user code.
+//! is bounded by a type-level counter (`Fuel`); the emitter's type grows with every
+//! `and_emit_to` and the filter's with every `and_emit_when` exactly as in user code
+//! (`And<And<..>, ..>`); `map_emitter` / `map_ctxt` closures box their result (compile time).
 //! The finished builder is initialised twice: into a fresh `AmbientSlot` (`init_slot`) and as
 //! a standalone runtime (`init_runtime`); every event is emitted through every entry point
 //! and the destinations' records are compared with the specification's.
@@ -189,11 +189,7 @@ impl<N: Fuel> Fuel for S<N> {
         let log = env.log;
         match c["c"].as_str().unwrap() {
             "emit_to" => N::go(s.emit_to(dest(c["d"].as_u64().unwrap(), log)), rest, env),
-            "and_emit_to" => N::go(
-                s.and_emit_to(dest(c["d"].as_u64().unwrap(), log)).map_emitter(|e| Box::new(e) as DE),
-                rest,
-                env,
-            ),
+            "and_emit_to" => N::go(s.and_emit_to(dest(c["d"].as_u64().unwrap(), log)), rest, env),
             "map_emitter" => match c["m"].as_str().unwrap() {
                 "when" => {
                     let f = pred_filter(c["p"].as_str().unwrap());
@@ -273,6 +269,12 @@ fn judge(recs: Vec<Rec>, exp: &Value, entry: &str, before: Duration, after: Dura
     }
 }
 
+type Amb<'a> = emit::runtime::AmbientRuntime<'a>;
+type AmbE<'a> = &'a (dyn ErasedEmitter + Send + Sync + 'static);
+type AmbC<'a> = &'a (dyn ErasedCtxt + Send + Sync + 'static);
+
+/// the generic part is kept thin (it is instantiated for every type the builder reaches):
+/// initialise, emit one event at the concrete type, hand type-erased views to `observe`
 fn finish<TE, TF, TC, TK, TR>(s: Setup<TE, TF, TC, TK, TR>, env: &Env) -> Vec<Value>
 where
     TE: Emitter + Send + Sync + 'static,
@@ -283,16 +285,6 @@ where
     TR: Rng + Send + Sync + 'static,
 {
     let mut fails = Vec::new();
-    let case = env.case;
-    let log = env.log;
-    let take = || std::mem::take(&mut *log.lock().unwrap());
-    let now = || std::time::UNIX_EPOCH.elapsed().unwrap();
-    let tpl = || emit::Template::literal("t");
-    let want_rng = case["rng"].as_u64().unwrap();
-    let rng_ok = |got: Option<u64>| want_rng == 0 || got == Some(u64::from_ne_bytes([want_rng as u8; 8]));
-    let want_amb: Vec<(String, i64)> = case["expect"].as_array().unwrap().iter().find(|e| e["via"] == "rt")
-        .map(|e| e["amb"].as_array().unwrap().iter().map(|kv| (kv["k"].as_str().unwrap().to_string(), kv["v"].as_i64().unwrap())).collect())
-        .unwrap_or_default();
     match env.mode {
         "slot" => {
             let slot = AmbientSlot::new();
@@ -300,106 +292,110 @@ where
                 fails.push(json!({"what": "a fresh slot is enabled"}));
             }
             let init = s.init_slot(&slot);
-            if !slot.is_enabled() {
-                fails.push(json!({"what": "the slot is not enabled after init_slot"}));
-            }
-            let rt = slot.get();
-            for exp in case["expect"].as_array().unwrap() {
-                let ev = &exp["ev"];
-                let own = own_props(ev);
-                let ext = own_extent(ev);
-                let entries: &[&str] = if exp["via"] == "rt" {
-                    &["slot.get().emit", "Init::get().emit", "Emitter::emit(rt)", "emit!(rt, evt)", "emit!(rt, props)"]
-                } else {
-                    &["Init::emitter().emit", "rt.emitter().emit"]
-                };
-                for entry in entries {
-                    let evt = Event::new(emit::Path::new_raw("m"), tpl(), ext, &own[..]);
-                    let before = now();
-                    match *entry {
-                        "slot.get().emit" => rt.emit(evt),
-                        "Init::get().emit" => init.get().emit(evt),
-                        "Emitter::emit(rt)" => Emitter::emit(rt, evt),
-                        "emit!(rt, evt)" => emit::emit!(rt, evt: evt),
-                        "emit!(rt, props)" => emit::emit!(rt, extent: ext, props: &own[..], "t"),
-                        "Init::emitter().emit" => init.emitter().emit(evt),
-                        "rt.emitter().emit" => rt.emitter().emit(evt),
-                        e => tool_error(&format!("entry {e}")),
-                    }
-                    let after = now();
-                    judge(take(), exp, entry, before, after, &mut fails);
-                }
-            }
-            // the other components the builder installed
-            let amb = init.ctxt().with_current(|cur| props_of(cur));
-            if amb != want_amb {
-                fails.push(json!({"what": "Init::ctxt() is not the configured context", "got": amb, "want": want_amb}));
-            }
-            let amb = rt.ctxt().with_current(|cur| props_of(cur));
-            if amb != want_amb {
-                fails.push(json!({"what": "the runtime's context is not the configured context", "got": amb, "want": want_amb}));
-            }
-            if !rng_ok(rt.rng().gen_u64()) {
-                fails.push(json!({"what": "the runtime's rng is not the configured one", "got": rt.rng().gen_u64(), "want": want_rng}));
-            }
-            let want_clk = case["clk"].as_u64().unwrap();
-            let (before, got, after) = (now(), rt.clock().now().map(|t| t.to_unix()), now());
-            let ok = match (want_clk, got) {
-                (0, None) => true,
-                (SYS_T, Some(t)) => before <= t && t <= after,
-                (n, Some(t)) if n != 0 && n != SYS_T => t == Duration::from_secs(n),
-                _ => false,
-            };
-            if !ok {
-                fails.push(json!({"what": "the runtime's clock is not the configured one", "got": got.map(|t| t.as_secs()), "want": want_clk}));
-            }
-            // a second initialisation of the same slot changes nothing
-            if emit::setup().emit_to(dest(77, log)).try_init_slot(&slot).is_some() {
-                fails.push(json!({"what": "a second try_init_slot succeeded"}));
-            }
-            if let Some(exp) = case["expect"].as_array().unwrap().iter().find(|e| e["via"] == "rt") {
-                let own = own_props(&exp["ev"]);
-                let before = now();
-                slot.get().emit(Event::new(emit::Path::new_raw("m"), tpl(), own_extent(&exp["ev"]), &own[..]));
-                judge(take(), exp, "slot.get().emit after a second try_init_slot", before, now(), &mut fails);
-            }
+            observe(env, Some(&slot), init.get(), init.emitter(), init.ctxt(), &mut fails);
         }
         "runtime" => {
             let rt = s.init_runtime();
-            for exp in case["expect"].as_array().unwrap() {
-                let ev = &exp["ev"];
-                let own = own_props(ev);
-                let ext = own_extent(ev);
-                let entries: &[&str] = if exp["via"] == "rt" {
-                    &["init_runtime().emit", "Emitter::emit(&runtime)", "emit!(&runtime, evt)"]
-                } else {
-                    &["init_runtime().emitter().emit"]
-                };
-                for entry in entries {
-                    let evt = Event::new(emit::Path::new_raw("m"), tpl(), ext, &own[..]);
-                    let before = now();
-                    match *entry {
-                        "init_runtime().emit" => rt.emit(evt),
-                        "Emitter::emit(&runtime)" => Emitter::emit(&rt, evt),
-                        "emit!(&runtime, evt)" => emit::emit!(rt: &rt, evt: evt),
-                        "init_runtime().emitter().emit" => rt.emitter().emit(evt),
-                        e => tool_error(&format!("entry {e}")),
-                    }
-                    let after = now();
-                    judge(take(), exp, entry, before, after, &mut fails);
-                }
+            // one event through the runtime at its concrete type
+            if let Some(exp) = env.case["expect"].as_array().unwrap().iter().find(|e| e["via"] == "rt") {
+                let own = own_props(&exp["ev"]);
+                let before = now();
+                rt.emit(Event::new(emit::Path::new_raw("m"), emit::Template::literal("t"), own_extent(&exp["ev"]), &own[..]));
+                judge(take(env.log), exp, "init_runtime().emit (concrete type)", before, now(), &mut fails);
             }
-            if !rng_ok(rt.rng().gen_u64()) {
-                fails.push(json!({"what": "init_runtime(): rng is not the configured one", "got": rt.rng().gen_u64(), "want": want_rng}));
-            }
-            let amb = rt.ctxt().with_current(|cur| props_of(cur));
-            if amb != want_amb {
-                fails.push(json!({"what": "init_runtime(): context is not the configured context", "got": amb, "want": want_amb}));
-            }
+            // the same components behind the type-erased runtime type
+            let erased: Amb = emit::runtime::Runtime::build(rt.emitter(), rt.filter(), rt.ctxt(), rt.clock(), rt.rng());
+            observe(env, None, &erased, rt.emitter(), rt.ctxt(), &mut fails);
         }
         m => tool_error(&format!("unknown mode {m}")),
     }
     fails
+}
+
+fn now() -> Duration {
+    std::time::UNIX_EPOCH.elapsed().unwrap()
+}
+
+fn take(log: &Log) -> Vec<Rec> {
+    std::mem::take(&mut *log.lock().unwrap())
+}
+
+fn observe(env: &Env, slot: Option<&AmbientSlot>, rt: &Amb, direct: AmbE, ctxt: AmbC, fails: &mut Vec<Value>) {
+    let case = env.case;
+    let log = env.log;
+    let tpl = || emit::Template::literal("t");
+    let want_rng = case["rng"].as_u64().unwrap();
+    let want_amb: Vec<(String, i64)> = case["expect"].as_array().unwrap().iter().find(|e| e["via"] == "rt")
+        .map(|e| e["amb"].as_array().unwrap().iter().map(|kv| (kv["k"].as_str().unwrap().to_string(), kv["v"].as_i64().unwrap())).collect())
+        .unwrap_or_default();
+    if let Some(slot) = slot {
+        if !slot.is_enabled() {
+            fails.push(json!({"what": "the slot is not enabled after init_slot"}));
+        }
+    }
+    for exp in case["expect"].as_array().unwrap() {
+        let ev = &exp["ev"];
+        let own = own_props(ev);
+        let ext = own_extent(ev);
+        let entries: &[&str] = if exp["via"] == "rt" {
+            &["rt.emit", "slot.get().emit", "Emitter::emit(rt)", "emit!(rt, evt)", "emit!(rt, props)"]
+        } else {
+            &["Init::emitter().emit", "rt.emitter().emit"]
+        };
+        for entry in entries {
+            let evt = Event::new(emit::Path::new_raw("m"), tpl(), ext, &own[..]);
+            let before = now();
+            match *entry {
+                "rt.emit" => rt.emit(evt),
+                "slot.get().emit" => match slot {
+                    Some(slot) => slot.get().emit(evt),
+                    None => continue,
+                },
+                "Emitter::emit(rt)" => Emitter::emit(rt, evt),
+                "emit!(rt, evt)" => emit::emit!(rt, evt: evt),
+                "emit!(rt, props)" => emit::emit!(rt, extent: ext, props: &own[..], "t"),
+                "Init::emitter().emit" => direct.emit(evt),
+                "rt.emitter().emit" => rt.emitter().emit(evt),
+                e => tool_error(&format!("entry {e}")),
+            }
+            let after = now();
+            judge(take(log), exp, entry, before, after, fails);
+        }
+    }
+    // the other components the builder installed
+    for (name, c) in [("Init::ctxt() / Runtime::ctxt()", ctxt), ("the runtime's context", *rt.ctxt())] {
+        let amb = c.with_current(|cur| props_of(cur));
+        if amb != want_amb {
+            fails.push(json!({"what": format!("{name} is not the configured context"), "got": amb, "want": want_amb}));
+        }
+    }
+    let got_rng = rt.rng().gen_u64();
+    if want_rng != 0 && got_rng != Some(u64::from_ne_bytes([want_rng as u8; 8])) {
+        fails.push(json!({"what": "the runtime's rng is not the configured one", "got": got_rng, "want": want_rng}));
+    }
+    let want_clk = case["clk"].as_u64().unwrap();
+    let (before, got, after) = (now(), rt.clock().now().map(|t| t.to_unix()), now());
+    let ok = match (want_clk, got) {
+        (0, None) => true,
+        (SYS_T, Some(t)) => before <= t && t <= after,
+        (n, Some(t)) if n != 0 && n != SYS_T => t == Duration::from_secs(n),
+        _ => false,
+    };
+    if !ok {
+        fails.push(json!({"what": "the runtime's clock is not the configured one", "got": got.map(|t| t.as_secs()), "want": want_clk}));
+    }
+    if let Some(slot) = slot {
+        // a second initialisation of the same slot changes nothing
+        if emit::setup().emit_to(dest(77, log)).try_init_slot(slot).is_some() {
+            fails.push(json!({"what": "a second try_init_slot succeeded"}));
+        }
+        if let Some(exp) = case["expect"].as_array().unwrap().iter().find(|e| e["via"] == "rt") {
+            let own = own_props(&exp["ev"]);
+            let before = now();
+            slot.get().emit(Event::new(emit::Path::new_raw("m"), tpl(), own_extent(&exp["ev"]), &own[..]));
+            judge(take(log), exp, "slot.get().emit after a second try_init_slot", before, now(), fails);
+        }
+    }
 }
 
 fn main() {
